@@ -1,10 +1,20 @@
 import TantivyModel.Proofs.GrammarCharsRem
-import TantivyModel.Model.Grammar.Printer
 import TantivyModel.Proofs.Grammar
+import TantivyModel.Model.Grammar.Printer
 namespace TantivyModel.Grammar.Chars
 open TantivyModel.Grammar
 
-/-! ## printing operand lists of plain words, and parsing them back -/
+/-! ## printing operand lists (words and parenthesised lists), and parsing them back -/
+
+/-- what the list parser needs to know about an operand -/
+structure GoodOpd (g : Bool) (o : Opd) : Prop where
+  head : ∃ c r, o.text = c :: r ∧ isNomSpace c = false ∧ c ≠ ':' ∧ c ≠ '+' ∧ c ≠ '-' ∧ c ≠ ')'
+  noOp : ∀ t, Rem t → binaryOperand (o.text ++ t) = (none, o.text ++ t)
+  parse : ∀ t, Rem t → ∀ f, o.cost ≤ f → pLeaf g f (o.text ++ t) = .ok o.leaf t
+  small : o.cost ≤ 4 * o.text.length
+
+/-- what may follow an operand list: nothing, or the `)` of the enclosing group -/
+def EndTail (tail : Str) : Prop := tail = [] ∨ ∃ x, tail = ')' :: x
 
 theorem skip0_spaces (n : Nat) (x : Str) (hx : ∀ c r, x = c :: r → isNomSpace c = false) :
     skip0 (spaces n ++ x) = x := by
@@ -20,37 +30,57 @@ theorem skip0_spaces (n : Nat) (x : Str) (hx : ∀ c r, x = c :: r → isNomSpac
       simp [skip0, List.dropWhile, isNomSpace]
     rw [e, ih]
 
-theorem skip0_spaces_nil (n : Nat) : skip0 (spaces n) = [] := by
-  have := skip0_spaces n [] (by intro c r h; cases h)
-  simpa using this
+theorem endTail_head (tail : Str) (h : EndTail tail) : ∀ c r, tail = c :: r → isNomSpace c = false := by
+  intro c r e
+  rcases h with rfl | ⟨x, rfl⟩
+  · cases e
+  · simp only [List.cons.injEq] at e
+    rw [← e.1]; decide
+
+theorem skip0_spaces_tail (n : Nat) (tail : Str) (h : EndTail tail) : skip0 (spaces n ++ tail) = tail :=
+  skip0_spaces n tail (endTail_head tail h)
+
+theorem rem_spaces_tail (k : Nat) (tail : Str) (h : EndTail tail) : Rem (spaces k ++ tail) := by
+  cases k with
+  | zero =>
+    rcases h with rfl | ⟨x, rfl⟩
+    · exact Or.inl rfl
+    · exact Or.inr (Or.inr ⟨x, by simp [spaces]⟩)
+  | succ k =>
+    refine Or.inr (Or.inl ⟨spaces k ++ tail, by simp [spaces, List.replicate_succ], ?_⟩)
+    intro r' e
+    rw [skip0_spaces_tail k tail h] at e
+    rcases h with rfl | ⟨x, rfl⟩
+    · cases e
+    · simp at e
 
 /-- the first character of an operand's text is not a blank and not a colon -/
-theorem itemText_head (it : PItem) (hw : PlainWord it.word) :
+theorem itemText_head (g : Bool) (it : PItem) (hw : GoodOpd g it.opd) :
     ∃ c r, itemText it = c :: r ∧ isNomSpace c = false ∧ c ≠ ':' := by
-  obtain ⟨c, r, hcr⟩ := List.exists_cons_of_ne_nil hw.ne
-  have hc : plain c = true := hw.all c (by rw [hcr]; simp)
+  obtain ⟨c, r, hcr, hsp, hcol, _⟩ := hw.head
   unfold itemText
   cases hop : it.op with
   | some o =>
     cases o with
-    | and => exact ⟨'A', 'N' :: 'D' :: ' ' :: (spaces it.sp2 ++ (markText it.occ ++ it.word)), by simp [opText], by decide, by decide⟩
-    | or => exact ⟨'O', 'R' :: ' ' :: (spaces it.sp2 ++ (markText it.occ ++ it.word)), by simp [opText], by decide, by decide⟩
+    | and => exact ⟨'A', 'N' :: 'D' :: ' ' :: (spaces it.sp2 ++ (markText it.occ ++ it.opd.text)), by simp [opText], by decide, by decide⟩
+    | or => exact ⟨'O', 'R' :: ' ' :: (spaces it.sp2 ++ (markText it.occ ++ it.opd.text)), by simp [opText], by decide, by decide⟩
   | none =>
     cases hocc : it.occ with
-    | none => exact ⟨c, r, by simp [opText, markText, hcr], (plain_not_space c hc).2, plain_ne c ':' hc (by decide)⟩
+    | none => exact ⟨c, r, by simp [opText, markText, hcr], hsp, hcol⟩
     | some o =>
       cases o with
-      | should => exact ⟨c, r, by simp [opText, markText, hcr], (plain_not_space c hc).2, plain_ne c ':' hc (by decide)⟩
-      | must => exact ⟨'+', it.word, by simp [opText, markText], by decide, by decide⟩
-      | mustNot => exact ⟨'-', it.word, by simp [opText, markText], by decide, by decide⟩
+      | should => exact ⟨c, r, by simp [opText, markText, hcr], hsp, hcol⟩
+      | must => exact ⟨'+', it.opd.text, by simp [opText, markText], by decide, by decide⟩
+      | mustNot => exact ⟨'-', it.opd.text, by simp [opText, markText], by decide, by decide⟩
 
-theorem skip0_printRest_cons (it : PItem) (more : List PItem) (k : Nat) (hw : PlainWord it.word) :
-    skip0 (printRest (it :: more) k) = itemText it ++ printRest more k := by
-  obtain ⟨c, r, hcr, hsp, _⟩ := itemText_head it hw
-  have e : skip0 (' ' :: (spaces it.sp1 ++ (itemText it ++ printRest more k)))
-      = skip0 (spaces it.sp1 ++ (itemText it ++ printRest more k)) := by
+theorem skip0_printRest_cons (g : Bool) (it : PItem) (more : List PItem) (k : Nat) (tail : Str)
+    (hw : GoodOpd g it.opd) :
+    skip0 (printRest (it :: more) k tail) = itemText it ++ printRest more k tail := by
+  obtain ⟨c, r, hcr, hsp, _⟩ := itemText_head g it hw
+  have e : skip0 (' ' :: (spaces it.sp1 ++ (itemText it ++ printRest more k tail)))
+      = skip0 (spaces it.sp1 ++ (itemText it ++ printRest more k tail)) := by
     simp [skip0, List.dropWhile, isNomSpace]
-  show skip0 (' ' :: (spaces it.sp1 ++ (itemText it ++ printRest more k))) = _
+  show skip0 (' ' :: (spaces it.sp1 ++ (itemText it ++ printRest more k tail))) = _
   rw [e, skip0_spaces]
   intro c' r' h'
   rw [hcr] at h'
@@ -58,21 +88,14 @@ theorem skip0_printRest_cons (it : PItem) (more : List PItem) (k : Nat) (hw : Pl
   rw [← h'.1]
   exact hsp
 
-/-- what follows a word in a printed operand list never makes it a field name -/
-theorem rem_printRest (more : List PItem) (k : Nat) (hw : ∀ it ∈ more, PlainWord it.word) :
-    Rem (printRest more k) := by
+/-- what follows an operand in a printed operand list never makes it a field name -/
+theorem rem_printRest (g : Bool) (more : List PItem) (k : Nat) (tail : Str) (ht : EndTail tail)
+    (hw : ∀ it ∈ more, GoodOpd g it.opd) : Rem (printRest more k tail) := by
   cases more with
-  | nil =>
-    cases k with
-    | zero => exact Or.inl rfl
-    | succ k =>
-      refine Or.inr ⟨spaces k, by simp [printRest, spaces, List.replicate_succ], ?_⟩
-      intro r' h
-      rw [skip0_spaces_nil] at h
-      cases h
+  | nil => exact rem_spaces_tail k tail ht
   | cons it rest =>
-    refine Or.inr ⟨spaces it.sp1 ++ (itemText it ++ printRest rest k), rfl, ?_⟩
-    obtain ⟨c, r, hcr, hsp, hcol⟩ := itemText_head it (hw it (by simp))
+    refine Or.inr (Or.inl ⟨spaces it.sp1 ++ (itemText it ++ printRest rest k tail), rfl, ?_⟩)
+    obtain ⟨c, r, hcr, hsp, hcol⟩ := itemText_head g it (hw it (by simp))
     intro r' h
     rw [skip0_spaces] at h
     · rw [hcr] at h
@@ -84,21 +107,44 @@ theorem rem_printRest (more : List PItem) (k : Nat) (hw : ∀ it ∈ more, Plain
       rw [← h'.1]
       exact hsp
 
-theorem tag_kwspace_none (ks w t : Str) (hks : ks ∈ keywords) (hw : PlainWord w) (ht : Rem t) :
-    tag (ks ++ [' ']) (w ++ t) = none := by
-  unfold tag
-  split
-  · rename_i hp
-    exact absurd (prefix_space_false ks w t (keyword_plain ks hks) hw.all ht hp)
-      (plainWord_ne_keyword w ks hw hks)
-  · rfl
+theorem needRest_ge (more : List PItem) : 3 ≤ needRest more := by
+  induction more with
+  | nil => simp [needRest]
+  | cons it rest ih => simp only [needRest]; omega
 
-theorem binaryOperand_word (w t : Str) (hw : PlainWord w) (ht : Rem t) :
-    binaryOperand (w ++ t) = (none, w ++ t) := by
-  have h1 := tag_kwspace_none ['A', 'N', 'D'] w t (by simp [keywords]) hw ht
-  have h2 := tag_kwspace_none ['O', 'R'] w t (by simp [keywords]) hw ht
-  simp only [List.cons_append, List.nil_append] at h1 h2
-  simp [binaryOperand, h1, h2]
+theorem boost_of_rem (t : Str) (ht : Rem t) : boost t = (none, t) := by
+  rcases ht with rfl | ⟨t', rfl, _⟩ | ⟨t', rfl⟩
+  · rfl
+  · unfold boost
+    split
+    · rename_i heq; exact absurd (List.cons.inj heq).1 (by decide)
+    · rfl
+  · unfold boost
+    split
+    · rename_i heq; exact absurd (List.cons.inj heq).1 (by decide)
+    · rfl
+
+/-- an operand with its occur marker -/
+theorem pOccurLeaf_good (g : Bool) (o : Opd) (ho : GoodOpd g o) (occ : Option Occur) (t : Str)
+    (ht : Rem t) (f : Nat) (hf : o.cost + 1 ≤ f) :
+    pOccurLeaf g f (markText occ ++ (o.text ++ t)) = .ok (normOcc occ, o.leaf) t := by
+  obtain ⟨f', rfl⟩ : ∃ f', f = f' + 1 := ⟨f - 1, by omega⟩
+  obtain ⟨c, r, hcr, _, _, hp, hm, _⟩ := ho.head
+  have ho' : occurSymbol (o.text ++ t) = (none, o.text ++ t) := by
+    rw [hcr]
+    show occurSymbol (c :: (r ++ t)) = _
+    unfold occurSymbol
+    split
+    · rename_i heq; exact absurd (List.cons.inj heq).1 hm
+    · rename_i heq; exact absurd (List.cons.inj heq).1 hp
+    · rfl
+  have hl := ho.parse t ht f' (by omega)
+  unfold pOccurLeaf
+  match occ with
+  | some .must => simp [markText, normOcc, occurSymbol, hl, R.bind, boost_of_rem t ht, applyBoost]
+  | some .mustNot => simp [markText, normOcc, occurSymbol, hl, R.bind, boost_of_rem t ht, applyBoost]
+  | some .should => simp [markText, normOcc, ho', hl, R.bind, boost_of_rem t ht, applyBoost]
+  | none => simp [markText, normOcc, ho', hl, R.bind, boost_of_rem t ht, applyBoost]
 
 theorem plainLiteral_nil (g : Bool) : plainLiteral g [] = .fail := by rfl
 
@@ -114,167 +160,199 @@ theorem pOperands_nil (g : Bool) (f : Nat) : pOperands g (f + 3) [] = .ok [] [] 
   unfold pOperands
   simp [binaryOperand, tag, List.isPrefixOf, skip0, pOccurLeaf_nil]
 
+theorem plainLiteral_close (g : Bool) (x : Str) : plainLiteral g (')' :: x) = .fail := by
+  have h1 : fieldName (')' :: x) = none := by simp [fieldName, specialChars]
+  have h2 : range (')' :: x) = none := by
+    simp [range, skip0, List.dropWhile, isNomSpace, tag, List.isPrefixOf]
+  have h3 : set (')' :: x) = none := by
+    simp [set, skip0, List.dropWhile, isNomSpace, tag, List.isPrefixOf]
+  have h4 : exists_ (')' :: x) = none := by
+    simp [exists_, skip0, List.dropWhile, isNomSpace]
+  have h5 : regex (')' :: x) = none := by simp [regex]
+  have hn : negativeNumber (')' :: x) = none := by
+    unfold negativeNumber
+    split
+    · rename_i heq; exact absurd (List.cons.inj heq).1 (by decide)
+    · rfl
+  have hwd : word (')' :: x) = none := by
+    unfold word
+    split
+    · rename_i heq; exact absurd (List.cons.inj heq).1 (by decide)
+    · rename_i heq
+      obtain ⟨rfl, rfl⟩ := List.cons.inj heq
+      simp [escapeInWord]
+    · rename_i heq; cases heq
+  have hst : simpleTerm (')' :: x) = none := by
+    unfold simpleTerm
+    rw [hn]
+    simp only
+    split
+    · rename_i heq; exact absurd (List.cons.inj heq).1 (by decide)
+    · rename_i heq; exact absurd (List.cons.inj heq).1 (by decide)
+    · simp [hwd]
+  have h6 : termOrPhrase (')' :: x) = none := by
+    simp [termOrPhrase, hst]
+  simp [plainLiteral, h1, h2, h3, h4, h5, h6]
+
+theorem pLeaf_close (g : Bool) (f : Nat) (x : Str) : pLeaf g (f + 1) (')' :: x) = .fail := by
+  unfold pLeaf
+  simp [R.orElse, tag, List.isPrefixOf, plainLiteral_close, fieldName, specialChars]
+
+theorem pOperands_close (g : Bool) (f : Nat) (x : Str) :
+    pOperands g (f + 3) (')' :: x) = .ok [] (')' :: x) := by
+  have h : pOccurLeaf g (f + 2) (')' :: x) = .fail := by
+    unfold pOccurLeaf
+    simp [occurSymbol, pLeaf_close, R.bind]
+  unfold pOperands
+  simp [binaryOperand, tag, List.isPrefixOf, skip0, List.dropWhile, isNomSpace, h]
+
+theorem pOperands_end (g : Bool) (f : Nat) (tail : Str) (h : EndTail tail) :
+    pOperands g (f + 3) tail = .ok [] tail := by
+  rcases h with rfl | ⟨x, rfl⟩
+  · exact pOperands_nil g f
+  · exact pOperands_close g f x
+
 /-- the operand texts after the first one parse back to their items -/
-theorem pOperands_print (g : Bool) (more : List PItem) (k : Nat)
-    (hw : ∀ it ∈ more, PlainWord it.word) :
-    ∀ f, more.length + 3 ≤ f →
-      pOperands g f (skip0 (printRest more k)) = .ok (more.map itemOf) [] := by
+theorem pOperands_print (g : Bool) (more : List PItem) (k : Nat) (tail : Str) (ht : EndTail tail)
+    (hw : ∀ it ∈ more, GoodOpd g it.opd) :
+    ∀ f, needRest more ≤ f →
+      pOperands g f (skip0 (printRest more k tail)) = .ok (more.map itemOf) tail := by
   induction more with
   | nil =>
     intro f hf
-    obtain ⟨f', rfl⟩ : ∃ f', f = f' + 3 := ⟨f - 3, by simp at hf; omega⟩
-    simp only [printRest, skip0_spaces_nil, List.map_nil]
-    exact pOperands_nil g f'
+    obtain ⟨f', rfl⟩ : ∃ f', f = f' + 3 := ⟨f - 3, by simp [needRest] at hf; omega⟩
+    simp only [printRest, skip0_spaces_tail k tail ht, List.map_nil]
+    exact pOperands_end g f' tail ht
   | cons it rest ih =>
     intro f hf
     have hwi := hw it (by simp)
-    have hwr : ∀ x ∈ rest, PlainWord x.word := fun x hx => hw x (List.mem_cons_of_mem _ hx)
-    obtain ⟨f'', rfl⟩ : ∃ f'', f = f'' + 3 := ⟨f - 3, by simp at hf; omega⟩
-    have hfr : rest.length + 3 ≤ f'' + 2 := by simp at hf; omega
-    have ht := rem_printRest rest k hwr
-    obtain ⟨c, r, hcr⟩ := List.exists_cons_of_ne_nil hwi.ne
-    have hpw : PlainWord (c :: r) := hcr ▸ hwi
-    rw [skip0_printRest_cons it rest k hwi]
-    -- after the operator keyword and its blanks: marker, word, the rest
-    have hbin : binaryOperand (itemText it ++ printRest rest k)
-        = (it.op, (if it.op.isSome then spaces it.sp2 else []) ++ (markText it.occ ++ (it.word ++ printRest rest k))) := by
+    have hwr : ∀ x ∈ rest, GoodOpd g x.opd := fun x hx => hw x (List.mem_cons_of_mem _ hx)
+    simp only [needRest] at hf
+    obtain ⟨f', rfl⟩ : ∃ f', f = f' + 1 := ⟨f - 1, by omega⟩
+    have hn3 := needRest_ge rest
+    have hfr : needRest rest ≤ f' := by omega
+    have hrem := rem_printRest g rest k tail ht hwr
+    obtain ⟨c, r, hcr, hsp, _, hpl, hmi, _⟩ := hwi.head
+    rw [skip0_printRest_cons g it rest k tail hwi]
+    have hbin : binaryOperand (itemText it ++ printRest rest k tail)
+        = (it.op, (if it.op.isSome then spaces it.sp2 else []) ++ (markText it.occ ++ (it.opd.text ++ printRest rest k tail))) := by
       unfold itemText
       cases hop : it.op with
       | some o => cases o <;> simp [opText, binaryOperand, tag, List.isPrefixOf]
       | none =>
         cases hocc : it.occ with
-        | none =>
-          simpa [opText, markText] using binaryOperand_word it.word (printRest rest k) hwi ht
+        | none => simpa [opText, markText] using hwi.noOp (printRest rest k tail) hrem
         | some o =>
           cases o with
-          | should => simpa [opText, markText] using binaryOperand_word it.word (printRest rest k) hwi ht
+          | should => simpa [opText, markText] using hwi.noOp (printRest rest k tail) hrem
           | must => simp [opText, markText, binaryOperand, tag, List.isPrefixOf]
           | mustNot => simp [opText, markText, binaryOperand, tag, List.isPrefixOf]
-    have hskip : skip0 ((if it.op.isSome then spaces it.sp2 else []) ++ (markText it.occ ++ (it.word ++ printRest rest k)))
-        = markText it.occ ++ (c :: (r ++ printRest rest k)) := by
-      have hx : ∀ c' r', markText it.occ ++ (it.word ++ printRest rest k) = c' :: r' → isNomSpace c' = false := by
-        intro c' r' h'
-        rw [hcr] at h'
-        cases hocc : it.occ with
-        | none =>
-          simp only [hocc, markText, List.nil_append, List.cons_append, List.cons.injEq] at h'
-          rw [← h'.1]; exact (plain_not_space c (hpw.all c (by simp))).2
-        | some o =>
-          cases o <;> simp only [hocc, markText, List.nil_append, List.cons_append, List.cons.injEq] at h'
-          · rw [← h'.1]; exact (plain_not_space c (hpw.all c (by simp))).2
-          · rw [← h'.1]; decide
-          · rw [← h'.1]; decide
-      have base : skip0 (markText it.occ ++ (it.word ++ printRest rest k)) = markText it.occ ++ (it.word ++ printRest rest k) := by
-        have := skip0_spaces 0 _ hx
-        simpa [spaces] using this
+    have hx : ∀ c' r', markText it.occ ++ (it.opd.text ++ printRest rest k tail) = c' :: r' → isNomSpace c' = false := by
+      intro c' r' h'
+      rw [hcr] at h'
+      cases hocc : it.occ with
+      | none =>
+        simp only [hocc, markText, List.nil_append, List.cons_append, List.cons.injEq] at h'
+        rw [← h'.1]; exact hsp
+      | some o =>
+        cases o <;> simp only [hocc, markText, List.nil_append, List.cons_append, List.cons.injEq] at h'
+        · rw [← h'.1]; exact hsp
+        · rw [← h'.1]; decide
+        · rw [← h'.1]; decide
+    have hskip : skip0 ((if it.op.isSome then spaces it.sp2 else []) ++ (markText it.occ ++ (it.opd.text ++ printRest rest k tail)))
+        = markText it.occ ++ (it.opd.text ++ printRest rest k tail) := by
       cases hs : it.op.isSome
       · simp only [Bool.false_eq_true, if_false, List.nil_append]
-        rw [base, hcr]
-        simp
+        have := skip0_spaces 0 _ hx
+        simpa [spaces] using this
       · simp only [if_true]
-        rw [skip0_spaces _ _ hx, hcr]
-        simp
-    have hocc := pOccurLeaf_rem c r (printRest rest k) hpw ht g f'' it.occ
-    have hrec := ih hwr (f'' + 2) hfr
-    show pOperands g (f'' + 2 + 1) (itemText it ++ printRest rest k) = _
+        exact skip0_spaces _ _ hx
+    have hocc := pOccurLeaf_good g it.opd hwi it.occ (printRest rest k tail) hrem f' (by omega)
+    have hrec := ih hwr f' hfr
     unfold pOperands
-    simp only [hbin, hskip]
-    have hocc' : pOccurLeaf g (f'' + 2) (markText it.occ ++ c :: (r ++ printRest rest k))
-        = .ok (normOcc it.occ, leafOf (c :: r)) (printRest rest k) := by
-      cases ho : it.occ with
-      | none => simpa [ho, markText, normOcc, leafOf] using hocc
-      | some o => cases o <;> simpa [ho, markText, normOcc, leafOf] using hocc
-    rw [hocc']
-    simp only [hrec]
-    simp [itemOf, hcr]
+    simp only [hbin, hskip, hocc, hrec]
+    simp [itemOf]
 
 theorem skip1_space (t : Str) : skip1 (' ' :: t) = some (skip0 (' ' :: t)) := by
   simp [skip1, skip0, isNomSpace]
 
-theorem skip0_printList (lead : Nat) (occ : Option Occur) (c : Char) (r : Str) (t : Str)
-    (hc : plain c = true) :
-    skip0 (spaces lead ++ (markText occ ++ (c :: r ++ t))) = markText occ ++ (c :: (r ++ t)) := by
-  have hx : ∀ c' r', markText occ ++ (c :: r ++ t) = c' :: r' → isNomSpace c' = false := by
-    intro c' r' h'
-    cases occ with
-    | none =>
-      simp only [markText, List.nil_append, List.cons_append, List.cons.injEq] at h'
-      rw [← h'.1]; exact (plain_not_space c hc).2
-    | some o =>
-      cases o <;> simp only [markText, List.nil_append, List.cons_append, List.cons.injEq] at h'
-      · rw [← h'.1]; exact (plain_not_space c hc).2
-      · rw [← h'.1]; decide
-      · rw [← h'.1]; decide
-  rw [skip0_spaces _ _ hx]
-  simp
+theorem skip1_close (x : Str) : skip1 (')' :: x) = none := by
+  simp [skip1, isNomSpace]
 
-/-- **print/parse for operand lists**: the text of `[+|-]w₀ ([AND |OR ][+|-]wᵢ)*` with any number
-    of blanks before, between and after the operands parses to the fold of its items -/
-theorem pAst_print (g : Bool) (lead : Nat) (occ : Option Occur) (w : Str) (more : List PItem) (k : Nat)
-    (hw : PlainWord w) (hm : ∀ it ∈ more, PlainWord it.word) (f : Nat) (hf : more.length + 4 ≤ f) :
-    ∃ t, strictAst (normOcc occ, leafOf w) (more.map itemOf) = .ok t
-      ∧ pAst g f (printList lead occ w more k) = .ok t [] := by
-  obtain ⟨f'', rfl⟩ : ∃ f'', f = f'' + 4 := ⟨f - 4, by omega⟩
-  obtain ⟨c, r, rfl⟩ := List.exists_cons_of_ne_nil hw.ne
-  have hc : plain c = true := hw.all c (by simp)
-  have ht := rem_printRest more k hm
-  have hocc : pOccurLeaf g (f'' + 3) (markText occ ++ c :: (r ++ printRest more k))
-      = .ok (normOcc occ, leafOf (c :: r)) (printRest more k) := by
-    have h0 := pOccurLeaf_rem c r (printRest more k) hw ht g (f'' + 1) occ
-    cases ho : occ with
-    | none => simpa [ho, markText, normOcc, leafOf] using h0
-    | some o => cases o <;> simpa [ho, markText, normOcc, leafOf] using h0
-  have hsk := skip0_printList lead occ c r (printRest more k) hc
-  show ∃ t, _ ∧ pAst g (f'' + 3 + 1) (spaces lead ++ (markText occ ++ (c :: r ++ printRest more k))) = .ok t []
+theorem skip0_printList (g : Bool) (lead : Nat) (occ : Option Occur) (o : Opd) (ho : GoodOpd g o) (t : Str) :
+    skip0 (spaces lead ++ (markText occ ++ (o.text ++ t))) = markText occ ++ (o.text ++ t) := by
+  obtain ⟨c, r, hcr, hsp, _⟩ := ho.head
+  apply skip0_spaces
+  intro c' r' h'
+  rw [hcr] at h'
+  cases occ with
+  | none =>
+    simp only [markText, List.nil_append, List.cons_append, List.cons.injEq] at h'
+    rw [← h'.1]; exact hsp
+  | some oc =>
+    cases oc <;> simp only [markText, List.nil_append, List.cons_append, List.cons.injEq] at h'
+    · rw [← h'.1]; exact hsp
+    · rw [← h'.1]; decide
+    · rw [← h'.1]; decide
+
+theorem listTree_eq (occ : Option Occur) (o : Opd) (more : List PItem) :
+    strictAst (normOcc occ, o.leaf) (more.map itemOf) = .ok (listTree occ o more) := by
+  unfold listTree
+  cases more with
+  | nil => simp [strictAst]
+  | cons it rest =>
+    obtain ⟨t, ht⟩ := strictFold_ok (normOcc occ, o.leaf) ((it :: rest).map itemOf)
+    have : strictAst (normOcc occ, o.leaf) ((it :: rest).map itemOf) = .ok t := by
+      simpa [strictAst] using ht
+    rw [this]
+
+/-- **print/parse for operand lists**: the printed list parses to the fold of its items and
+    leaves exactly `tail` -/
+theorem pAst_print (g : Bool) (lead : Nat) (occ : Option Occur) (o : Opd) (more : List PItem) (k : Nat)
+    (tail : Str) (ht : EndTail tail) (ho : GoodOpd g o) (hm : ∀ it ∈ more, GoodOpd g it.opd)
+    (f : Nat) (hf : o.cost + needRest more + 2 ≤ f) :
+    pAst g f (printList lead occ o more k tail) = .ok (listTree occ o more) tail := by
+  have hneed : 3 ≤ needRest more := needRest_ge more
+  obtain ⟨f', rfl⟩ : ∃ f', f = f' + 1 := ⟨f - 1, by omega⟩
+  have hrem := rem_printRest g more k tail ht hm
+  have hocc := pOccurLeaf_good g o ho occ (printRest more k tail) hrem f' (by omega)
+  have hsk := skip0_printList g lead occ o ho (printRest more k tail)
+  have htree := listTree_eq occ o more
+  show pAst g (f' + 1) (spaces lead ++ (markText occ ++ (o.text ++ printRest more k tail))) = _
   unfold pAst
   rw [hsk, hocc]
   simp only [R.bind]
   cases more with
   | nil =>
-    refine ⟨_, rfl, ?_⟩
+    simp only [List.map_nil, strictAst] at htree
+    have htr : listTree occ o [] = (if normOcc occ = some .mustNot then o.leaf.unary .mustNot else o.leaf) := by
+      simp [listTree, strictAst]
+    obtain ⟨f'', rfl⟩ : ∃ f'', f' = f'' + 3 := ⟨f' - 3, by omega⟩
     cases k with
-    | zero => simp [printRest, spaces, skip1, skip0]
+    | zero =>
+      have e : printRest [] 0 tail = tail := by simp [printRest, spaces]
+      rw [e]
+      rcases ht with rfl | ⟨x, rfl⟩
+      · simp [skip1, skip0, htr]
+      · simp [skip1_close, skip0, List.dropWhile, isNomSpace, htr]
     | succ k =>
-      have e : printRest [] (k + 1) = ' ' :: spaces k := by simp [printRest, spaces, List.replicate_succ]
-      have e2 : skip0 (' ' :: spaces k) = [] := by
-        have := skip0_spaces_nil (k + 1)
+      have e : printRest [] (k + 1) tail = ' ' :: (spaces k ++ tail) := by simp [printRest, spaces, List.replicate_succ]
+      have e2 : skip0 (' ' :: (spaces k ++ tail)) = tail := by
+        have := skip0_spaces_tail (k + 1) tail ht
         simpa [spaces, List.replicate_succ] using this
       rw [e, skip1_space, e2]
-      simp only [pOperands_nil g f'', e2]
+      simp only [pOperands_end g f'' tail ht, e2, htr]
   | cons it rest =>
-    obtain ⟨t, hst⟩ := strictFold_ok (normOcc occ, leafOf (c :: r)) ((it :: rest).map itemOf)
-    refine ⟨t, by simpa [strictAst] using hst, ?_⟩
-    have e : printRest (it :: rest) k = ' ' :: (spaces it.sp1 ++ (itemText it ++ printRest rest k)) := rfl
-    have hp := pOperands_print g (it :: rest) k hm (f'' + 3) (by simp at hf ⊢; omega)
+    have e : printRest (it :: rest) k tail = ' ' :: (spaces it.sp1 ++ (itemText it ++ printRest rest k tail)) := rfl
+    have hp := pOperands_print g (it :: rest) k tail ht hm f' (by omega)
+    have hst : strictFold (normOcc occ, o.leaf) ((it :: rest).map itemOf) = .ok (listTree occ o (it :: rest)) := by
+      simpa [strictAst] using htree
     rw [e, skip1_space, ← e]
     simp only [hp]
     simp only [List.map_cons] at hst ⊢
-    simp [hst, skip0]
-
-theorem printRest_length (more : List PItem) (k : Nat) : more.length ≤ (printRest more k).length := by
-  induction more with
-  | nil => simp
-  | cons it rest ih =>
-    simp only [printRest, List.length_cons, List.length_append]
-    omega
-
-/-- the whole strict parser on a printed operand list of plain words, for every layout choice -/
-theorem parseStrictWith_print (g : Bool) (lead : Nat) (occ : Option Occur) (w : Str)
-    (more : List PItem) (k : Nat) (hw : PlainWord w) (hm : ∀ it ∈ more, PlainWord it.word) :
-    ∃ t, strictAst (normOcc occ, leafOf w) (more.map itemOf) = .ok t
-      ∧ parseStrictWith g (printList lead occ w more k) = .tree (rewrite t) := by
-  obtain ⟨c, r, rfl⟩ := List.exists_cons_of_ne_nil hw.ne
-  have hc : plain c = true := hw.all c (by simp)
-  have hlen : more.length + 4 ≤ 8 * (printList lead occ (c :: r) more k).length + 16 := by
-    have := printRest_length more k
-    simp only [printList, List.length_append, List.length_cons]
-    omega
-  have hsk : skip0 (printList lead occ (c :: r) more k) = printList 0 occ (c :: r) more k := by
-    have := skip0_printList lead occ c r (printRest more k) hc
-    simpa [printList, spaces] using this
-  obtain ⟨t, hst, hp⟩ := pAst_print g 0 occ (c :: r) more k hw hm _ hlen
-  refine ⟨t, hst, ?_⟩
-  unfold parseStrictWith
-  simp only [hsk, hp]
+    have hend : skip0 tail = tail := by
+      have := skip0_spaces_tail 0 tail ht
+      simpa [spaces] using this
+    simp [hst, hend]
 
 end TantivyModel.Grammar.Chars
